@@ -207,6 +207,43 @@ def resume_pairing(cx):
     cx.check({"Progress.paused", "Progress.pending_snapshot", "Progress.state"} <= ws and "reset" in calls, "shape:reset_state", "every state change clears paused, pending_snapshot and the inflight window")
 
 
+@obligation("FLOW.window_capacity", ["C13"], floor=4, kind="pairing (every clear of the pending capacity applies or cancels it)",
+            why="a runtime shrink of max_inflight_msgs is parked in incoming_cap while the window is busy; dropping the parked value without applying it leaves the old, larger window in force")
+def window_capacity(cx):
+    IC, CAP = "Inflights.incoming_cap", "Inflights.cap"
+    n = 0
+    capw = [s for s in cx.prog.writes.get(CAP, []) if "stmt" in s.data]
+    for s in cx.prog.writes.get(IC, []):
+        key = cx.site_key(s, "clear:" + IC)
+        a = cx.prog.A(s.fn)
+        g = cx.pg(s.fn)
+        if "stmt" in s.data:
+            v = write_value(cx, s)
+            if v[0] == "adt" and v[1].endswith("Option::Some"):
+                # parking: the requested capacity, only while the window is busy and the request shrinks it
+                cx.check(v[2][0][1][0] == "param", cx.site_key(s, "park"), "the parked capacity is the requested one", s)
+                n += 1
+                continue
+            if v != ("enum", "core::option::Option", "None"):
+                cx.bad(key, "unrecognised write of incoming_cap: %s" % show(v)[:80], s)
+                continue
+            # cleared: either the request equals the capacity in force, or the request is applied on the same path
+            same = [w for w in capw if w.fn is s.fn and write_value(cx, w)[0] == "param" and (w.block == s.block or g.dominated_by_block(s.at, lambda b, w=w: b == w.block) or g.dominated_by_block(w.at, lambda b: b == s.block))]
+            equal = any(l[0] == "in" and l[2] == frozenset(["Equal"]) for l in cx.guard_lits(s))
+            cx.check(bool(same) or equal, key, "incoming_cap is cleared only when the requested capacity is applied (cap := request) or equals the one in force", s)
+            n += 1
+        else:
+            # Option::take(): the taken value must reach `cap`
+            took = [w for w in capw if w.fn is s.fn and any(x[0] == "call" and x[1].endswith("Option::take") and any(is_f(y, IC) for y in walk(x)) for x in walk(write_value(cx, w)))]
+            cx.check(bool(took), key, "a taken incoming_cap is applied: cap := the taken value (else the capacity in force)", s)
+            for w in took:
+                v = write_value(cx, w)
+                okv = (v[0] == "vfield" and v[1][0] == "call" and v[1][1].endswith("Option::take")) or (v[0] == "call" and v[1].endswith("unwrap_or") and is_f(v[2][1], CAP))
+                cx.check(okv, cx.site_key(w, "apply"), "cap := incoming_cap.take() if any, else unchanged (found %s)" % show(v)[:100], w)
+            n += 1
+    cx.check(n >= 4, "floor", "capacity sites were found")
+
+
 @obligation("FLOW.resume_sources", ["C13"], floor=3, kind="who-may-call + guard",
             why="while probing, `paused` is the only thing that keeps a second append from going out before the first is answered: only fresh evidence (an advancing ack, a non-stale rejection, a heartbeat response, a state change) may clear it")
 def resume_sources(cx):
